@@ -13,6 +13,7 @@ from .common import ok_result, err_is, is_record, isint, numtext, DIGITS, LETTER
 from ..dates import SymDateTime, as_sym_dt
 
 TAGS = ('int', 'float', 'bool', 'blank', 'numtext', 'negnumtext', 'dectext', 'text', 'date', 'datetime')
+NUMFORMS = ('exptext', 'negexptext', 'padtext', 'plustext', 'longtext', 'dec2text', 'dotlead', 'dottrail')
 ARITH = ('+', '-', '*', '/')
 PLAIN_LETTERS = [(ord(c), ord(c)) for c in 'bcdghjklmopqrsuvwxzBCDGHJKLMOPQRSUVWXZ']
 PYOP = {'+': lambda a, b: a + b, '-': lambda a, b: a - b, '*': lambda a, b: a * b, '/': lambda a, b: a / b}
@@ -30,6 +31,25 @@ def make(e, tag, name):
         a = e.fresh_str(name + 'i', 1, alphabet=DIGITS)
         b = e.fresh_str(name + 'f', 1, alphabet=DIGITS)
         return SymStr(a.cps + (46,) + b.cps)
+    if tag in NUMFORMS:
+        d = lambda k, n=1: e.fresh_str(name + k, n, alphabet=DIGITS).cps
+        lit = lambda t: tuple(ord(c) for c in t)
+        if tag == 'exptext':
+            return SymStr(d('m') + lit('e') + d('x'))
+        if tag == 'negexptext':
+            return SymStr(d('m') + lit('.') + d('f') + lit('E-') + d('x'))
+        if tag == 'padtext':
+            return SymStr(lit(' ') + d('m', 2) + lit(' '))
+        if tag == 'plustext':
+            return SymStr(lit('+') + d('m', 2))
+        if tag == 'longtext':
+            return SymStr(d('m', 6))
+        if tag == 'dec2text':
+            return SymStr(lit('-') + d('m', 2) + lit('.') + d('f', 2))
+        if tag == 'dotlead':
+            return SymStr(lit('.') + d('f'))
+        if tag == 'dottrail':
+            return SymStr(d('m') + lit('.'))
     if tag == 'text':
         # letters that float() gives no meaning to (no e / inf / nan / infinity spellings)
         return e.fresh_str(name, 2, alphabet=PLAIN_LETTERS)
@@ -203,6 +223,29 @@ class Scalars(Harness):
 
 
 @register
+class NumericTexts(Scalars):
+    name = 'C06.numtexts'
+    doc = 'text spelling a number in any of the spellings the conversion accepts acts as that number: exponent forms, a plus ' \
+          'sign, surrounding blanks, long digit strings, two decimals, a leading or a trailing decimal point'
+    bounds = 'texts d e d, d.d E- d, blank dd blank, +dd, dddddd, -dd.dd, .d, d. (digits symbolic) against an integer, a float, a ' \
+             'logical, blank and a two-digit numeric text, either side, + - * /'
+    outside = ('exponents of two or more digits', 'digit strings longer than 6')
+
+    def cases(self, tier):
+        partners = ('int', 'float', 'bool', 'blank', 'numtext')
+        out = []
+        for f in NUMFORMS:
+            for q in partners:
+                for op in ARITH:
+                    if tier == 'quick' and q in ('float', 'bool') and op in '-/':
+                        continue
+                    out.append({'ta': f, 'tb': q, 'op': op})
+                    if op in '-/':
+                        out.append({'ta': q, 'tb': f, 'op': op})
+        return out
+
+
+@register
 class Arrays(Harness):
     name = 'C06.arrays'
     prop = 'C06'
@@ -282,11 +325,11 @@ class Concat(Harness):
     prop = 'C06'
     doc = '& joins its operands as text: text verbatim, integers as their digits, blank as nothing'
     functions = ('grammarparser.parser.p_expression_arithmetic_operator',)
-    bounds = 'operands: text of length 0..2 over all code points, any integer |n| < 10^6, blank; all pairs'
+    bounds = 'operands: text of length 0..2 over all code points, any integer |n| < 10^6 (all pairs) and |n| <= 10^17 (beside a text of length 0..1 or a blank), blank'
 
     def cases(self, tier):
-        tags = ['text0', 'text1', 'text2', 'int', 'blank']
-        return [{'ta': a, 'tb': b} for a in tags for b in tags]
+        tags = ['text0', 'text1', 'text2', 'int', 'bigint', 'blank']
+        return [{'ta': a, 'tb': b} for a in tags for b in tags if 'bigint' not in (a, b) or (a if b == 'bigint' else b) in ('text0', 'text1', 'blank')]
 
     def _mk(self, e, tag, name):
         if tag.startswith('text'):
@@ -294,6 +337,8 @@ class Concat(Harness):
             return e.fresh_str(name, n) if n else ''
         if tag == 'int':
             return e.fresh_int(name, -999999, 999999)
+        if tag == 'bigint':
+            return e.fresh_int(name, -(10 ** 17), 10 ** 17)
         return None
 
     def build(self, e, p):
